@@ -19,9 +19,14 @@ One universe description (the model's view: spelling does not exist there, a ref
 object) is rendered as text in a style; the description keeps, in its spelling slots, the canonical source that
 evaluates to the same object, so the reverse map annotation -> description of universe.Registry still works.
 
-Alias groups are compared with the REFERENCE SEMANTICS only (Core.unm / Core.mar with `NType`): the mechanism model
-(Build.v) has named objects = classes and `TAliasStr i n` = "the string names class n", a recursive alias with a
-compound body is outside it.  Class groups go through the full three-way mechanism correspondence.
+Both strata go through the full three-way mechanism correspondence (reference semantics vs implementation, the
+mechanism run along the observed node orders vs implementation, mechanism vs reference semantics).  For the alias
+stratum the environment handed to Coq says HOW an alias object holds its value, because the mechanism depends on it
+(Build.unwrap): a string-valued alias is `NType (TRefTo body)` / `NType (TRef n)` -- its value is the reference the
+text stands for, inspection.unwrap returns that reference and its graph node is a single deferred node that becomes
+a Delayed* proxy -- while a PEP 695 statement `type N = body` is `NType body` (the value is peeled, the alias node is
+expanded like its body and only the revisit is deferred).  The order of whatever a proxy resolves at call time
+(`static_order(ForwardRef(text))`, evaluated first) is collected as well (AliasRegistry, SpelledGroup.collect_orders).
 """
 from __future__ import annotations
 
@@ -214,6 +219,25 @@ def materialise(env, roots):
     return mod, tys, src
 
 
+class AliasRegistry(universe.Registry):
+    """universe.Registry whose environment tells the mechanism model how each alias object holds its value"""
+
+    def emit_env(self) -> str:
+        base = super().emit_env()
+        for n, d in self.env["defs"].items():
+            if d[0] != "alias" or not isinstance(d[1], str):
+                continue
+            info = self.env.get("c07", {}).get(str(n), {})
+            if STYLES.get(info.get("style"), {}).get("stmt"):
+                continue                     # `type N = body`: the value is the body itself
+            body = d[2]
+            old = f"| {n} => Some (NType {self.emit_ty(body)})"
+            ref = ("ref", body[1], "fwd") if body[0] == "name" else ("wrapref", body, "fwd")
+            assert old in base, (n, base[:200])
+            base = base.replace(old, f"| {n} => Some (NType {self.emit_ty(ref)})")
+        return base
+
+
 class SpelledGroup(coremodel.Group):
     """coremodel.Group over a module written by module_source above"""
 
@@ -221,7 +245,7 @@ class SpelledGroup(coremodel.Group):
         env, roots = copy.deepcopy((env, roots))
         self.env, self.roots = env, roots
         self.mod, self.pytys, self.src = materialise(env, roots)
-        self.reg = universe.Registry(env, self.mod)
+        self.reg = AliasRegistry(env, self.mod)
         self.mirror = coremodel.Mirror(self.reg, suppressed["u"])
         self.sup = suppressed
         self.cases = []
@@ -269,7 +293,8 @@ class SpelledGroup(coremodel.Group):
     def collect_orders(self, pytype, depth=0):
         """coremodel.Group.collect_orders, plus: a member that IS a reference (a signature string) is not flagged
         cyclic by the graph but is built as a delayed proxy all the same: the order of what it evaluates to is
-        needed too"""
+        needed too; likewise the node of a string-valued alias (type = the alias object, unwrapped = the reference to
+        its text): it is dispatched on the unwrapped form, i.e. to a proxy for that reference"""
         import warnings
         from typelib import graph
         from typelib.py import refs
@@ -306,6 +331,11 @@ class SpelledGroup(coremodel.Group):
                     later.append(refs.evaluate(n.type))
                 except BaseException as e:
                     self.order_problems.append(f"evaluate({n.type!r}) raised {e!r}")
+            elif isinstance(n.unwrapped, typing.ForwardRef):
+                try:
+                    later.append(refs.evaluate(n.unwrapped))
+                except BaseException as e:
+                    self.order_problems.append(f"evaluate({n.unwrapped!r}) raised {e!r}")
         self.orders["u"][key] = coq_list(out, "node")
         for tgt in later:
             self.collect_orders(tgt, depth + 1)
